@@ -40,10 +40,19 @@ const LIFE: i64 = 3;
 
 const TA_HOST: &str = "ta.verif.test";
 
+thread_local! {
+    /// The history being replayed writes the hosts of its CA repositories with capital letters (host names are
+    /// case-insensitive; the cache keeps them in lower case).
+    static CAPS: std::cell::Cell<bool> = const { std::cell::Cell::new(false) };
+}
+
 fn module_uri(name: &str, same_host: bool) -> String {
+    let caps = CAPS.with(|c| c.get());
     match name {
         "m0" => format!("rsync://{TA_HOST}/m0/"),
+        m if same_host && caps => format!("rsync://R1.Verif.TEST/{m}/"),
         m if same_host => format!("rsync://r1.verif.test/{m}/"),
+        m if caps => format!("rsync://R-{m}.Verif.TEST/{m}/"),
         m => format!("rsync://r-{m}.verif.test/{m}/"),
     }
 }
@@ -276,6 +285,8 @@ fn model_stored(v: &Value) -> BTreeSet<(u64, String, bool, String, u64)> {
 
 /// Replays runs of the history until it ends or has to wait for an expiry.
 fn advance(rep: &mut Report, h: &mut Hist, b: &Value, factory: &Factory) -> Progress {
+    // every fifth history (not the ones with RRDP-style homes only): capital letters in the repository hosts
+    CAPS.with(|c| c.set(h.idx % 5 == 2));
     let runs = b["runs"].as_array().unwrap();
     let n = b["n"].as_u64().unwrap();
     let fnow_ms = factory.now.timestamp() * 1000;
@@ -292,10 +303,14 @@ fn advance(rep: &mut Report, h: &mut Hist, b: &Value, factory: &Factory) -> Prog
         h.step += 1;
         let world = world_for(h, w, n, factory);
         let published = world.build(factory);
-        h.bed.publish(&published);
+        if CAPS.with(|c| c.get()) {
+            // the server's tree is keyed by the host in lower case
+            let _ = published.write_rsync_tree_tolerant(&h.bed.pubdir);
+            published.write_tals(&h.bed.tals);
+        } else { h.bed.publish(&published); }
         let down = set_of(&r["cfg"]["down"]);
         for m in ["m1", "m2", "m3"] {
-            h.bed.fail_module(&module_uri(m, h.same_host), if down.contains(m) { Some(10) } else { None });
+            h.bed.fail_module(&module_uri(m, h.same_host).to_ascii_lowercase(), if down.contains(m) { Some(10) } else { None });
         }
         let dirty = r["cfg"]["dirty"].as_bool().unwrap();
         let initial = r["cfg"]["kind"] == "initial";
@@ -346,7 +361,7 @@ fn advance(rep: &mut Report, h: &mut Hist, b: &Value, factory: &Factory) -> Prog
         let post = observe(&h.bed.cache);
         let ok = matches!(outcome, Outcome::Ok);
 
-        let ctx = json!({"history": h.idx, "n": n, "same_host": h.same_host, "manifests_past_next_update": h.stale_mode, "runs": runs[..=ri], "run_index": ri});
+        let ctx = json!({"history": h.idx, "n": n, "same_host": h.same_host, "capital_letters_in_hosts": h.idx % 5 == 2, "manifests_past_next_update": h.stale_mode, "runs": runs[..=ri], "run_index": ri});
         let observed = json!({"outcome": format!("{outcome:?}"), "before": before.to_json(), "pre_cleanup_twin": pre.to_json(),
                               "after": post.to_json(), "fetched": fetched});
         if matches!(outcome, Outcome::Init) {
